@@ -1,0 +1,66 @@
+//go:build verif
+
+package kv
+
+import (
+	"context"
+	"time"
+
+	"github.com/pkg/errors"
+
+	"github.com/oxia-db/oxia/common/concurrent"
+	time2 "github.com/oxia-db/oxia/common/time"
+)
+
+// VerifKeyValue is one raw entry of the underlying KV.
+type VerifKeyValue struct {
+	Key   string
+	Value []byte
+}
+
+// VerifDump returns every entry of the database in key order, the internal keys included, with
+// the raw stored bytes.
+func VerifDump(d DB) ([]VerifKeyValue, error) {
+	x, ok := d.(*db)
+	if !ok {
+		return nil, errors.New("not a kv.db")
+	}
+	it, err := x.kv.RangeScan("", "")
+	if err != nil {
+		return nil, err
+	}
+	var out []VerifKeyValue
+	for ; it.Valid(); it.Next() {
+		v, err := it.Value()
+		if err != nil {
+			_ = it.Close()
+			return nil, err
+		}
+		out = append(out, VerifKeyValue{Key: it.Key(), Value: append([]byte(nil), v...)})
+	}
+	return out, it.Close()
+}
+
+type verifClock struct{ now time.Time }
+
+func (c verifClock) Now() time.Time { return c.now }
+
+var _ time2.Clock = verifClock{}
+
+// VerifTrimNotifications runs one round of the notifications trimmer of the database, as its
+// background loop would at the instant `now` with the given retention time.
+func VerifTrimNotifications(d DB, retention time.Duration, now time.Time) error {
+	x, ok := d.(*db)
+	if !ok {
+		return errors.New("not a kv.db")
+	}
+	t := &notificationsTrimmer{
+		ctx:                        context.Background(),
+		waitClose:                  concurrent.NewWaitGroup(1),
+		kv:                         x.kv,
+		notificationsRetentionTime: retention,
+		clock:                      verifClock{now},
+		log:                        x.log,
+	}
+	return t.trimNotifications()
+}
